@@ -277,7 +277,7 @@ func checkC18(p *Prog, r *Report) {
 						clip(kt.String(), 120), "the exported map key is "+clip(kt.String(), 200)+", not compkey.EncodeToString(key, "+sepC+"): a key whose components the other joiner rewrites (\".\", \"..\", empty segments) cannot be parsed back")
 				}
 			}
-			r.Floor("aol-exported-string-keys", nKeys, 4)
+			r.Floor("aol-exported-string-keys", nKeys, 1)
 		}
 		// the string decoder itself: Split with the separator handed in
 		for name, want := range map[string]string{"DecodeFromString": "strings.Split"} {
